@@ -318,6 +318,13 @@ def dataRow : St → List (Col × Nat) → List (List Char) → List Col → Lis
   | st, [], [], acc, _ => some (st, acc.reverse)
   | st, (c, p) :: cs, cell :: cells, acc, anchors =>
     if !c.kern || cell = ['.'] || startsWith cell "!" then dataRow st cs cells (c :: acc) anchors
+    else if startsWith cell "*" then
+      -- an interpretation cell on a row of data tokens and null tokens (partitura's own exporter writes the
+      -- clef of one staff like this): read cell by cell, at the spine's own position; no spine paths here
+      if cell = "*^".toList || cell = "*v".toList || cell = "*-".toList then none
+      else match tandem st c p cell with
+        | some (st', c') => dataRow st' cs cells (c' :: acc) anchors
+        | none => none
     else match parseToken cell with
       | none => none
       | some toks =>
